@@ -84,9 +84,13 @@ def object_method_semantics(ctx):
                 if pth.exit != 'return':
                     continue
                 r = simp(pth.env.get('_0'))
-                if not (r and r[0] == 'agg' and r[2] == 'Ok'):
+                if r and r[0] == 'call' and r[1] == 'object::Object::try_int' and r[2]:
+                    # the checked encoder's answer is returned as it is: Ok(int(x)) or its range error
+                    val = ('call', 'object::Object::int', r[2], r[3] if len(r) > 3 else None)
+                elif not (r and r[0] == 'agg' and r[2] == 'Ok'):
                     continue
-                val = deref(pth.env, r[3][0])
+                else:
+                    val = deref(pth.env, r[3][0])
                 variants = [c[1] for c in pth.constraints if c[0][0] == 'variant' and c[0][2] == TYPE]
                 prims = []
                 # the value is Object::int(x) / Object::float(x, gc) / Object::bool(x)
